@@ -306,13 +306,21 @@ def _mp_tile_worker(queue, done_event, pio, reproject_function, kwargs):
     invert_into_tiles = pio.get_default_vertical_parity_sign() == 1
 
     while True:
+        # Sample the shutdown flag *before* the blocking receive. The flag is only
+        # raised once every item has been flushed to the queue, so if it was up
+        # already and the receive still times out, the queue is truly drained.
+        # Testing it after the timeout instead would race with a producer that
+        # enqueues its last items and raises the flag in between, and those
+        # items would never be processed.
+        finishing = done_event.is_set()
+
         try:
             # un-pickling WCS objects always triggers warnings right now
             with warnings.catch_warnings():
                 warnings.simplefilter("ignore")
                 image, desc, combined_wcs = queue.get(True, timeout=10)
         except Empty:
-            if done_event.is_set():
+            if finishing:
                 break
             continue
 
